@@ -430,8 +430,8 @@ class StateEngine:
         for j, s in enumerate(self.states):
             if j != idx and (mine & {id(c) for c in s.clusters}):
                 return True
-            if j != idx and s.point_labels is self.states[idx].point_labels:
-                return True
+        # sharing only the label LIST with another state is no obstacle: the setter rebinds the attribute and
+        # re-derives membership on this state's own cluster objects
         return False
 
     def _check_unchanged(self, except_idx, after):
